@@ -127,6 +127,18 @@ struct FaultPlan {
 	best: bool,
 	kind: u32, // selects the concrete form of the fault
 	header_only: bool,
+	// a lying get_header answer: (block, kind, amount).  The header itself (PoW, hash, prev hash)
+	// is right; kind "over" / "under" adds / subtracts `amount` units of minimum-difficulty work
+	// to / from the accumulated chainwork, "hup" / "hdn" reports the height one too high / low.
+	lie: Option<(usize, String, u64)>,
+}
+
+fn work_units(unit: Work, n: u64) -> Work {
+	let mut w = Work::from_be_bytes([0u8; 32]);
+	for _ in 0..n {
+		w = w + unit;
+	}
+	w
 }
 
 struct Source {
@@ -184,6 +196,34 @@ impl BlockSource for Source {
 					_ => d.header = bad_pow(d.header),
 				}
 				return Ok(d);
+			}
+			if let Some((lb, lk, ld)) = plan.lie.as_ref() {
+				if *lb == b {
+					let mut d = self.tree.header_data(b);
+					let unit = self.tree.blocks[0].block.header.work();
+					let amount = work_units(unit, *ld);
+					let kind = match lk.as_str() {
+						"over" => {
+							d.chainwork = d.chainwork + amount;
+							"over"
+						},
+						"under" if d.chainwork >= amount => {
+							d.chainwork = d.chainwork - amount;
+							"under"
+						},
+						"hdn" if d.height > 0 => {
+							d.height -= 1;
+							"hdn"
+						},
+						_ => {
+							d.height += 1;
+							"hup"
+						},
+					};
+					self.ev(json!({"ev":"fault"}));
+					self.ev(json!({"ev":"req","kind":"header","b":b,"outcome":format!("lie-{}", kind)}));
+					return Ok(d);
+				}
 			}
 			self.ev(json!({"ev":"req","kind":"header","b":b,"outcome":"ok"}));
 			Ok(self.tree.header_data(b))
@@ -339,6 +379,14 @@ fn run_script(run: u64, s: &Value, log: &Log, seed: u64) {
 					best: op["best"].as_bool().unwrap_or(false),
 					kind: op["kind"].as_u64().map(|x| x as u32).unwrap_or_else(|| rng.gen()),
 					header_only: op["header_only"].as_bool().unwrap_or_else(|| rng.gen_bool(0.3)),
+					// lies are served to polls only (start-up sync takes the listeners' old headers
+					// from the source on trust)
+					lie: match (name, op["lb"].as_i64(), op["lk"].as_str()) {
+						("poll", Some(b), Some(k)) if b >= 0 && k != "none" => {
+							Some((b as usize, k.to_string(), op["ld"].as_u64().unwrap_or(1).max(1)))
+						},
+						_ => None,
+					},
 				};
 				*source.plan.lock().unwrap() = plan;
 				if name == "poll" {
@@ -413,6 +461,7 @@ fn random_script(rng: &mut StdRng) -> Value {
 	let nl = if sync { rng.gen_range(1..=3) } else { 1 };
 	let ltips: Vec<usize> = (0..nl).map(|_| rng.gen_range(0..=nb)).collect();
 	let src = rng.gen_range(0..=nb);
+	let mut cur_src = src;
 	let mut ops = Vec::new();
 	let pick = |rng: &mut StdRng, p: f64| -> Vec<usize> {
 		let mut v = Vec::new();
@@ -429,9 +478,21 @@ fn random_script(rng: &mut StdRng) -> Value {
 	}
 	for _ in 0..rng.gen_range(1..=8) {
 		if rng.gen_bool(0.6) {
-			ops.push(json!({"op":"set_tip","b":rng.gen_range(0..=nb)}));
+			cur_src = rng.gen_range(0..=nb);
+			ops.push(json!({"op":"set_tip","b":cur_src}));
 		}
-		ops.push(json!({"op":"poll","fh":pick(rng,0.3),"fb":pick(rng,0.3),"best":rng.gen_bool(0.05)}));
+		let mut poll = json!({"op":"poll","fh":pick(rng,0.3),"fb":pick(rng,0.3),"best":rng.gen_bool(0.05)});
+		// a header other than the source's tip is only ever fetched as the parent of a header the
+		// client holds, so a wrong chainwork / height on it is always compared (whatever is cached)
+		if rng.gen_bool(0.3) {
+			let b = rng.gen_range(0..=nb);
+			if b != cur_src {
+				poll["lb"] = json!(b);
+				poll["lk"] = json!(["over", "under", "hup", "hdn"][rng.gen_range(0..4usize)]);
+				poll["ld"] = json!(rng.gen_range(1..=2u64));
+			}
+		}
+		ops.push(poll);
 	}
 	json!({"parent":parent,"work":work,"src":src,"ltips":ltips,"sync":sync,"ops":ops})
 }
@@ -470,6 +531,7 @@ fn main() {
 	let mut panics = 0;
 	let mut polls = 0;
 	let mut moved_runs = 0;
+	let mut lies_served = 0;
 	for (k, s) in scripts.iter().enumerate() {
 		let run = k as u64 + 1;
 		let log: Log = Arc::new(Mutex::new(Vec::new()));
@@ -483,10 +545,11 @@ fn main() {
 		for e in evs.iter() {
 			if e["ev"] == "poll_end" || e["ev"] == "sync_end" { polls += 1; }
 			if e["ev"] == "conn" || e["ev"] == "disc" { moved = true; }
+			if e["ev"] == "req" && e["outcome"].as_str().map_or(false, |o| o.starts_with("lie-")) { lies_served += 1; }
 			tw.emit(e.clone());
 		}
 		if moved { moved_runs += 1; }
 	}
 	tw.flush();
-	println!("{}", json!({"runs": scripts.len(), "events": tw.lines, "panics": panics, "ops": polls, "runs_with_notifications": moved_runs}));
+	println!("{}", json!({"runs": scripts.len(), "events": tw.lines, "panics": panics, "ops": polls, "runs_with_notifications": moved_runs, "lies_served": lies_served}));
 }
